@@ -235,3 +235,11 @@ META["C03"] = dict(
          "error, (c) the unmodified verifier rejects it.",
     note="Hooks: winter_utils::verif failpoints. A forgery needing more than the listed substitution classes is out of reach.",
 )
+META["C04"] = dict(
+    technique="mutation monitor with a semantic-equality oracle over parsed proof contents, under two acceptance modes",
+    text="Honest proofs are mutated at bit, byte, boundary and field level (the latter with consistent length prefixes, as "
+         "an attacker would); every mutated string that decodes AND verifies is parsed exactly as the verifier parses it and "
+         "compared component by component with the original; the first differing component names the violation. Three "
+         "recorded findings (seed does not bind inert partition options / zero-padded metadata) are matched by exact signature.",
+    note="Exhaustive bit flips only in the thorough tier; multi-site mutations are limited to the listed field-level edits.",
+)
